@@ -327,3 +327,77 @@ struct Good { a: u64, b: u8 }
 fn main() { run(&Good { a: 1, b: 2 }); run(&vec![Good { a: 1, b: 2 }; 3]); }
 ''', 'control'))
     return out
+
+
+# --------------------------------------------------------------------- C05
+C05_RUN = '''
+fn check<T>(x: &T, label: &str)
+where
+    T: Serialize + Deserialize + std::fmt::Debug,
+    for<'a> <T as DeserializeInner>::DeserType<'a>: std::fmt::Debug,
+{
+    let mut cur = <AlignedCursor<maligned_a64::A64>>::new();
+    x.serialize(&mut cur).expect("serialize");
+    cur.set_position(0);
+    let full = T::deserialize_full(&mut cur).expect("deserialize_full");
+    let eps = T::deserialize_eps(cur.as_bytes()).expect("deserialize_eps");
+    let (a, b, c) = (format!("{:?}", x), format!("{:?}", full), format!("{:?}", eps));
+    if a != b || a != c {
+        println!("PROBE-FAIL {}: original {} full {} eps {}", label, a, b, c);
+        std::process::exit(3);
+    }
+    println!("PROBE-OK {} {}", label, a.len());
+}
+mod maligned_a64 {
+    // AlignedCursor's default alignment type is enough for these probes
+    pub use epserde::deser::MemoryAlignment as A64;
+}
+'''
+
+
+def c05_probes():
+    """[(name, source)] – every program must compile, run, and print PROBE-OK."""
+    D = '#[derive(Epserde, Debug, Clone, PartialEq)]'
+    Z = '#[derive(Epserde, Debug, Clone, Copy, PartialEq)]\n#[zero_copy]\n#[repr(C)]'
+    shapes = [
+        ('struct_named', D + ' struct S { a: u32, s: String, v: Vec<u64> }', 'S { a: 1, s: "x".into(), v: vec![1, 2] }'),
+        ('struct_tuple', D + ' struct S(u8, Vec<u16>, Option<String>);', 'S(1, vec![2, 3], Some("y".into()))'),
+        ('struct_unit', D + ' #[deep_copy] struct S;', 'S'),
+        ('struct_eps_param', D + ' struct S<A> { a: A, n: u8 }', 'S { a: vec![1u32, 2, 3], n: 4 }'),
+        ('struct_eps_param_inline_bound', D + ' struct S<A: Clone + std::fmt::Debug> { a: A, n: u8 }', 'S { a: vec![1u32, 2, 3], n: 4 }'),
+        ('struct_eps_param_where_clause', D + ' struct S<A> where A: Clone { a: A, n: u8 }', 'S { a: vec![1u32, 2, 3], n: 4 }'),
+        ('struct_internal_param_where_clause', D + ' struct S<B> where B: Clone { b: Vec<B>, n: u8 }', 'S { b: vec![1u16, 2], n: 4 }'),
+        ('struct_internal_param_inline_bound', D + ' struct S<B: ZeroCopy> { b: Vec<B>, n: u8 }', 'S { b: vec![1u16, 2], n: 4 }'),
+        ('struct_phantom_param', D + ' struct S<P> { x: u8, p: PhantomData<P> }', 'S::<String> { x: 3, p: PhantomData }'),
+        ('struct_const_param_default', D + ' struct S<const N: usize = 2> { a: [u16; N] }', 'S::<3> { a: [1, 2, 3] }'),
+        ('struct_const_bool_param', D + ' #[deep_copy] struct S<const B: bool> { a: u8 }', 'S::<true> { a: 1 }'),
+        ('struct_defaulted_type_param', D + ' struct S<A = Vec<u8>> { a: A }', 'S { a: vec![1u8, 2] }'),
+        ('struct_two_eps_phantom_const', D + ' struct S<A, B, P, const N: usize> { a: A, b: B, p: PhantomData<P>, c: [u8; N] }',
+         'S::<Vec<u64>, String, u8, 2> { a: vec![1], b: "z".into(), p: PhantomData, c: [1, 2] }'),
+        ('struct_param_after_const', D + ' struct S<A, const N: usize> { c: [u8; N], a: A }', 'S::<Vec<u32>, 1> { c: [9], a: vec![1, 2] }'),
+        ('struct_type_param_after_const', D + ' struct S<const N: usize, A> { c: [u8; N], a: A }', 'S::<1, Vec<u32>> { c: [9], a: vec![1, 2] }'),
+        ('struct_nested_user_types', D + ' struct I { v: Vec<u8> } ' + D + ' struct S<A> { i: I, a: A, o: Option<I> }',
+         'S { i: I { v: vec![1] }, a: I { v: vec![2, 3] }, o: None }'),
+        ('enum_mixed_variants', D + ' enum E { U, T(u32, String), S { a: Vec<u16>, b: u8 } }', 'E::S { a: vec![1, 2], b: 3 }'),
+        ('enum_eps_param', D + ' enum E<A> { N, O(A), T { a: A, n: u8 } }', 'E::T { a: vec![1u64, 2], n: 1 }'),
+        ('enum_eps_param_inline_bound', D + ' enum E<A: Clone> { N, O(A) }', 'E::O(vec![1u64, 2])'),
+        ('enum_internal_param_where_clause', D + ' enum E<B> where B: Clone { N, V(Vec<B>) }', 'E::V(vec![1u8, 2])'),
+        ('enum_const_param', D + ' #[deep_copy] enum E<const K: u8> { A, B }', 'E::<7>::B'),
+        ('enum_single_variant', D + ' enum E { Only { x: String } }', 'E::Only { x: "q".into() }'),
+        ('zero_struct', Z + ' struct S { a: u8, b: u64 }', 'S { a: 1, b: 2 }'),
+        ('zero_struct_align', Z + ' #[repr(align(32))] struct S { a: u8 }', 'S { a: 1 }'),
+        ('zero_tuple_struct', Z + ' struct S(u16, u16);', 'S(1, 2)'),
+        ('zero_unit_struct', Z + ' struct S;', 'S'),
+        ('zero_generic_struct', Z + ' struct S<A: ZeroCopy> { a: A, b: u8 }', 'S { a: 5u32, b: 1 }'),
+        ('zero_generic_enum', Z + ' enum E<A: ZeroCopy> { N, O(A) }', 'E::O(5u32)'),
+        ('zero_enum_fieldless', Z + ' enum E { A, B, C }', 'E::B'),
+        ('zero_enum_payload', Z + ' enum E { A, B(u8), C { x: u64, y: u16 } }', 'E::C { x: 1, y: 2 }'),
+        ('zero_enum_payload_repr_u8', Z + ' #[repr(u8)] enum E { A, B(u16, u8) }', 'E::B(1, 2)'),
+        ('zero_in_vec_in_struct', Z + ' struct Zs { a: u32, b: u8 } ' + D + ' struct S<A> { a: A, z: Zs, zs: Vec<Zs> }',
+         'S { a: vec![Zs { a: 1, b: 2 }], z: Zs { a: 3, b: 4 }, zs: vec![Zs { a: 5, b: 6 }; 3] }'),
+        ('deep_copy_repr_c', D + ' #[deep_copy] #[repr(C)] struct S { a: u8, b: u16 }', 'S { a: 1, b: 2 }'),
+    ]
+    out = []
+    for name, defs, value in shapes:
+        out.append((name, HEAD + C05_RUN + '\n' + defs + '\n\nfn main() { let x = %s; check(&x, "%s"); }\n' % (value, name)))
+    return out
